@@ -83,7 +83,10 @@ class BatchProcessing(Scheduling):
             # The starting number of temporary resources is the maximum
             # number of (greedy) allocations we can make
             max_allocations_iteration = len(temporary_resources)
-            for task in task_pool:
+            # Iterate in a defined order: task_pool is a set of objects
+            # hashed by their string id, whose iteration order changes with
+            # the interpreter's hash seed
+            for task in sorted(task_pool, key=lambda t: str(t.id)):
                 # If we have exhausted all possible allocations for this
                 # timest ep, there no need to iterat
                 if len(allocations) >= max_allocations_iteration:
